@@ -25,13 +25,13 @@ def _is_global(b):
     return '"global":true' in head or '"global": true' in head
 
 
-def _run_shard(exe, path, tmp, timeout_s, env, per_shard_timeout, dump=False):
+def _run_shard(exe, path, tmp, timeout_s, env, per_shard_timeout, dump=False, extra=()):
     """Returns (mismatch records, stats, crash records, harness errors, saved values)."""
     mism, stats, crashes, herr, saves = [], None, [], [], []
     start = 0
     t_end = time.time() + per_shard_timeout
     while True:
-        cmd = [exe, path, "--from", str(start), "--tmp", tmp, "--timeout", str(timeout_s)] + (["--dump", "1"] if dump else [])
+        cmd = [exe, path, "--from", str(start), "--tmp", tmp, "--timeout", str(timeout_s)] + (["--dump", "1"] if dump else []) + list(extra)
         try:
             p = subprocess.run(cmd, stdout=subprocess.PIPE, stderr=subprocess.PIPE, text=True, env=env,
                                timeout=max(5, t_end - time.time()))
@@ -63,7 +63,7 @@ def _run_shard(exe, path, tmp, timeout_s, env, per_shard_timeout, dump=False):
     return mism, stats, crashes, herr, saves
 
 
-def replay(exe, behaviours, shards=16, timeout_s=20, env=None, per_shard_timeout=3000, keep=None, dump=False):
+def replay(exe, behaviours, shards=16, timeout_s=20, env=None, per_shard_timeout=3000, keep=None, dump=False, extra=()):
     """behaviours: list of JSON strings (or dicts).  Global behaviours are prepended to every shard."""
     t0 = time.time()
     res = ReplayResult()
@@ -87,7 +87,7 @@ def replay(exe, behaviours, shards=16, timeout_s=20, env=None, per_shard_timeout
                 for b in glob + part: f.write(b + "\n")
             paths.append(pth)
         with ThreadPoolExecutor(max_workers=shards) as ex:
-            outs = list(ex.map(lambda pth: _run_shard(exe, pth, tmp, timeout_s, e, per_shard_timeout, dump), paths))
+            outs = list(ex.map(lambda pth: _run_shard(exe, pth, tmp, timeout_s, e, per_shard_timeout, dump, extra), paths))
         res.saves = {}
         for i, (mism, stats, crashes, herr, saves) in enumerate(outs):
             part = glob + parts[i]
